@@ -7,7 +7,7 @@ git -C /repo apply "$patch" || { echo "patch does not apply"; exit 2; }
 cd /verif
 # the checks rewrite evidence/<P>.json; what they write about a patched tree must not stay there
 keep=$(mktemp -d); cp -a evidence/. "$keep"/
-trap 'git -C /repo checkout -- . ; git -C /repo status --short; rm -rf /verif/evidence; mkdir /verif/evidence; cp -a "$keep"/. /verif/evidence/; rm -rf "$keep"; (cd /verif && ./lib/build.sh harness >/dev/null 2>&1)' EXIT
+trap 'git -C /repo checkout -- . ; git -C /repo status --short; rm -rf /verif/evidence; mkdir /verif/evidence; cp -a "$keep"/. /verif/evidence/; rm -rf "$keep"; (cd /verif && for v in plain hooked tracing subscriber; do ./lib/build.sh harness $v >/dev/null 2>&1; done)' EXIT
 for P in "$@"; do
   out=$(./check $P --tier quick 2>&1); rc=$?
   echo "== $P exit=$rc"; echo "$out" | grep -E "VIOLATION|KNOWN" | cut -c1-170
